@@ -571,6 +571,74 @@ fn xen_regions() {
     }
 }
 
+/// The process-wide sinks (`Stdout`) in states a long-running program leaves them in: an
+/// unfinished line pending in std's buffer, and a descriptor 1 whose reader has gone away. A
+/// zero-count transfer is a successful no-op there too: nothing is emitted on the descriptor and
+/// the result is Ok whatever the state of the sink.
+#[cfg(all(not(miri), not(feature = "xen")))]
+fn stdout_in_awkward_states() {
+    use crate::common::fork::{self, Exit};
+    use std::io::Write;
+    for state in ["partial-line-pending", "partial-line-pending+reader-gone", "reader-gone", "plain"] {
+        let ex = fork::run(20, move || {
+            let mut fds = [0i32; 2];
+            // SAFETY: plain pipe/dup2/fcntl in the forked child.
+            unsafe {
+                libc::pipe(fds.as_mut_ptr());
+                libc::dup2(fds[1], 1);
+                libc::close(fds[1]);
+                let fl = libc::fcntl(fds[0], libc::F_GETFL);
+                libc::fcntl(fds[0], libc::F_SETFL, fl | libc::O_NONBLOCK);
+                libc::signal(libc::SIGPIPE, libc::SIG_IGN);
+            }
+            let mut so = std::io::stdout();
+            if state.starts_with("partial") {
+                let _ = so.write_all(b"an unfinished line");
+            }
+            if state.contains("reader-gone") {
+                // SAFETY: closing the read end of our own pipe.
+                unsafe { libc::close(fds[0]) };
+            }
+            let gm = vm_memory::GuestMemoryMmap::<()>::from_ranges(&[(GuestAddress(0x1000), 0x1000)]).unwrap();
+            let reg = gm.iter().next().unwrap();
+            let vs = reg.as_volatile_slice().unwrap();
+            let mut report = String::new();
+            let results = [
+                ("slice.write_volatile_to", vs.write_volatile_to(5, &mut so, 0).map(|n| n == 0).unwrap_or(false)),
+                ("slice.write_all_volatile_to", vs.write_all_volatile_to(5, &mut so, 0).is_ok()),
+                ("region.write_volatile_to", reg.write_volatile_to(vm_memory::MemoryRegionAddress(9), &mut so, 0).map(|n| n == 0).unwrap_or(false)),
+                ("region.write_all_volatile_to", reg.write_all_volatile_to(vm_memory::MemoryRegionAddress(9), &mut so, 0).is_ok()),
+                ("guest.write_volatile_to", gm.write_volatile_to(GuestAddress(0x1010), &mut so, 0).map(|n| n == 0).unwrap_or(false)),
+                ("guest.write_all_volatile_to", gm.write_all_volatile_to(GuestAddress(0x1010), &mut so, 0).is_ok()),
+                ("Stdout.write_volatile(empty slice)", vm_memory::WriteVolatile::write_volatile(&mut so, &vs.subslice(7, 0).unwrap()).map(|n| n == 0).unwrap_or(false)),
+            ];
+            for (name, ok) in results {
+                if !ok {
+                    report.push_str(&format!("{}: not Ok(0); ", name));
+                }
+            }
+            if !state.contains("reader-gone") {
+                let mut b = [0u8; 64];
+                // SAFETY: non-blocking read from our own pipe.
+                let n = unsafe { libc::read(fds[0], b.as_mut_ptr() as *mut libc::c_void, 64) };
+                if n > 0 {
+                    report.push_str(&format!("{} bytes appeared on descriptor 1; ", n));
+                }
+            }
+            report.into_bytes()
+        });
+        match ex {
+            Exit::Ok(rep) if rep.is_empty() => {
+                out::key(&format!("stdout-state|{}|zero-count", state), true);
+                out::eval(7);
+            }
+            Exit::Ok(rep) => out::viol(&format!("C18/Stdout({})/zero-count-transfer-is-not-a-successful-no-op", state), J::s(String::from_utf8_lossy(&rep).to_string())),
+            Exit::Panic(p) => out::viol(&format!("C18/Stdout({})/panic/{}", state, panic_sig(&p)), J::s(p)),
+            other => out::note("C18/stdout-child-inconclusive", J::dbg(&other)),
+        }
+    }
+}
+
 pub fn run(args: &Args) {
     out::set_quiet_cases(true);
     #[cfg(feature = "xen")]
@@ -578,6 +646,10 @@ pub fn run(args: &Args) {
         if let Err(p) = guarded(xen_regions) {
             out::viol(&format!("C18/xen/panic/{}", panic_sig(&p)), J::s(p));
         }
+    }
+    #[cfg(all(not(miri), not(feature = "xen")))]
+    if let Err(p) = guarded(stdout_in_awkward_states) {
+        out::viol(&format!("C18/panic/stdout-states/{}", panic_sig(&p)), J::s(p));
     }
     // fixed layouts (complete matrix)
     let top = 1u128 << 64;
